@@ -38,6 +38,7 @@ class Outcome:
         s.max_rss = 0
         s.samples = []
         s.out_of_scope = []    # failed non-claim assertions in jobs where UB is not in scope
+        s.ub_pat_unmatched = []   # jobs whose ub_pat matched no generated property at all (a pattern that cannot match counts nothing: reported in the evidence)
         s.disagreements = 0
         s.functions = set()
         s.notes = []
@@ -223,6 +224,8 @@ def classify(prop, jobs, wd, out=None, all_tags=None):
             out.inconclusive.append('%s: solver %s after %.0fs (bound: %s) %s' % (j.name, r.status, r.wall, j.bounds, r.log[:300]))
             continue
         witness_seen = False; job_bad = []
+        if j.ub_pat is not None and not any(re.search(j.ub_pat, pid + ' ' + pr['description']) for pid, pr in r.props.items()):
+            out.ub_pat_unmatched.append(j.name)
         sample = {'obligation': j.name, 'entry': j.entry, 'what': j.what, 'bounds': j.bounds, 'wall_s': round(r.wall, 1), 'rss_mb': r.rss_mb, 'assertions': {}}
         candidates = []
         for pid, pr in r.props.items():
@@ -316,7 +319,7 @@ def finish(prop, tier, seed, level, out, t0, coverage_extra=None, assumptions=()
         'samples': out.samples or [{'note': 'no query completed'}],
         'functions_encoded': sorted(out.functions),
         'solver_seconds': round(out.solver_s, 1), 'max_rss_mb': out.max_rss,
-        'inconclusive': out.inconclusive, 'out_of_scope_failures': out.out_of_scope[:20],
+        'inconclusive': out.inconclusive, 'out_of_scope_failures': out.out_of_scope[:20], 'ub_pattern_matched_nothing': sorted(set(getattr(out, 'ub_pat_unmatched', [])))[:40],
         'known_findings_hit': [{'what': k['finding'].get('what'), 'assertion': k['assertion']} for k in out.known],
         'disagreements_checked': out.disagreements,
         'explanation': explanation,
